@@ -194,6 +194,7 @@ def static_half(ctx, viol, known, cov, ks):
     cov["lock_table"] = dict(sites=len(data["accesses"]), entries=len(entries), locations=len(locs), mutexes=sorted(locks),
                              roles=sorted(roles), functions_scanned=data["functions"], goroutines=data["goroutines"],
                              entry_locks_inferred=data["entry_locks"], excused_by_c18_confined=len(excused),
+                             unanchored_fields_touched_by_background=data.get("unanchored_background_fields", []),
                              protection={loc: (list(p) if p else None) for loc, p in sorted(prot.items())},
                              coq_verdict=coq_ok)
     if per_entry != py_entry:
